@@ -628,3 +628,46 @@ def body_paths(block, is_event=None, what="loop body"):
     return finished, open_
   finished, open_ = run(block, ([], []))
   return finished + [(c, ev, "end") for c, ev in open_]
+
+
+# -- ordered paths through a statement list ---------------------------------------------------
+
+def linear_paths(body, fork=None, limit=2000, what="function body"):
+  """Every way through a statement list, each as an ORDERED list of steps
+  (unlike body_paths, assignments and tests keep their relative order, so a
+  caller can interpret a path abstractly):
+    ('stmt', node)         a simple statement, or a compound statement taken as
+                           one opaque step (for / while / try / match, nested
+                           def / class, an `if` for which fork(node) is false)
+    ('with', node)         the header of a with-statement whose body follows
+    ('test', expr, taken)  an if-test and its outcome on this path
+    ('exit', kind, node)   always the last step; kind is 'return' / 'raise' /
+                           'break' / 'continue' / 'end' (node None for 'end')
+  More than `limit` paths is an AnalysisError."""
+  def run(stmts, open_):
+    done = []
+    for st in stmts:
+      if not open_:
+        break
+      if isinstance(st, ast.If) and (fork is None or fork(st)):
+        nxt = []
+        for p in open_:
+          d1, o1 = run(st.body, [p + [("test", st.test, True)]])
+          d2, o2 = run(st.orelse, [p + [("test", st.test, False)]])
+          done += d1 + d2
+          nxt += o1 + o2
+        open_ = nxt
+      elif isinstance(st, (ast.With, ast.AsyncWith)):
+        d1, open_ = run(st.body, [p + [("with", st)] for p in open_])
+        done += d1
+      elif isinstance(st, (ast.Return, ast.Raise, ast.Break, ast.Continue)):
+        kind = type(st).__name__.lower()
+        done += [p + [("exit", kind, st)] for p in open_]
+        open_ = []
+      else:
+        open_ = [p + [("stmt", st)] for p in open_]
+      if len(done) + len(open_) > limit:
+        raise AnalysisError(f"{what}: more than {limit} paths")
+    return done, open_
+  done, open_ = run(body, [[]])
+  return done + [p + [("exit", "end", None)] for p in open_]
